@@ -15,6 +15,12 @@ Clause(e) ==
          ELSE IF ~e.reproduces THEN "C17:proof_does_not_reproduce_commitment"
          ELSE IF ~e.shape_matches THEN "M:proof_shape_differs_from_model"
          ELSE ""
+    [] e.k = "bigpair" ->   \* long lists (too long to interpret in the model): two lists that differ and whether the real commitments were equal
+         IF e.same_root THEN "C17:different_lists_same_commitment" ELSE ""
+    [] e.k = "bigproof" ->
+         IF ~e.leaf_present THEN "C17:proof_lacks_the_entry"
+         ELSE IF ~e.reproduces THEN "C17:proof_does_not_reproduce_commitment"
+         ELSE ""
     [] OTHER -> "machinery:unknown_event"
 TInit == n = 1 /\ l = 1 /\ done = FALSE
 TNext == /\ ~done /\ l <= Len(Events) /\ UNCHANGED n
